@@ -302,7 +302,24 @@ static void gen_big_case(hctx* h, fcase* fc, const long* target, int ng_) {
     fc->nsteps = ns;
 }
 
+/* directed: an INT32 column whose PLAIN bytes contain, at several places, a 32-bit value in 0xFFFFFFF8..0xFFFFFFFF followed
+ * by 0x31524150 ("PAR1"): the prefix cut right behind such a pair ends in <huge footer length> "PAR1" — the lengths for which
+ * `footer_len + 8` wraps in 32-bit arithmetic.  Every such prefix must be refused by every open path without touching memory
+ * outside the file. */
+static void huge_len_case(fcase* fc) {
+    memset(fc, 0, sizeof *fc);
+    fc->ncols = 1; snprintf(fc->cols[0].name, sizeof fc->cols[0].name, "v"); fc->cols[0].rep = 0; fc->cols[0].ptype = 1; fc->cols[0].tlen = 0;
+    fc->codec = 0; fc->page = 1 << 20; fc->nsteps = 1;
+    fstep* t = &fc->steps[0]; t->kind = 0; t->col = 0; t->has_defs = 0; t->has_reps = 0;
+    static const int32_t v[] = { 5, -8, 0x31524150, 6, -1, 0x31524150, -5, 0x31524150, 7, -7, 0x31524150, 2147483647, 0x31524150, 9 };
+    int n = (int)(sizeof v / sizeof v[0]);
+    t->nrows = n; t->nvals = n; t->defs = (uint8_t*)h_alloc((size_t)n); memset(t->defs, 1, (size_t)n);
+    t->vals = (uint8_t**)h_alloc((size_t)n * sizeof(uint8_t*)); t->vlen = (int*)h_alloc((size_t)n * sizeof(int));
+    for (int i = 0; i < n; i++) { t->vals[i] = h_alloc(4); memcpy(t->vals[i], &v[i], 4); t->vlen[i] = 4; }
+}
+
 static void gen_c18(hctx* h) {
+    { fcase fc; huge_len_case(&fc); run_trunc(h, &fc); free_case(&fc); }
     long files = h->thorough ? 100 : 8;
     for (long i = 0; i < files; i++) {
         fcase fc; gen_case(h, &fc, 1);
